@@ -27,6 +27,8 @@ Clauses(e) ==
       (IF e.panic # "" THEN {"C09: a well-formed transaction panicked after hostile inputs"} ELSE {})
       \cup (IF e.panic = "" /\ ~e.ok THEN {"C09: the application is no longer usable after hostile inputs (a well-formed transfer fails)"} ELSE {})
       \cup (IF e.before # prev THEN {"C09: state changed between two recorded calls"} ELSE {})
+  ELSE IF e.ev = "Dead" THEN
+      {"C09: the application panicked while executing a block that settles accepted hostile input: " \o e.what}
   ELSE {}
 
 Next ==
